@@ -245,7 +245,7 @@ impl World for Tok {
         let vault = self.flavour == Flavour::Vault;
         let mut v = vec![];
         for (ow, s) in &pairs {
-            for a in if th { vec![0, 1, 3] } else { vec![0, 3] } {
+            for a in if th { vec![0, 1, 3, i128::MAX] } else { vec![0, 3, i128::MAX] } {
                 for l in &lives {
                     v.push(Op::Approve { o: *ow, s: *s, a, live: *l });
                 }
